@@ -40,7 +40,7 @@ REQUIRED_CLASSES = (
      'indent-width-1', 'indent-width-2', 'indent-width-3', 'indent-width-4', 'indent-width-5', 'indent-width-8',
      'indent-with-tabs', 'irregular-sibling-indent', 'indented-root',
      'blank-line', 'comment-line', 'trailing-comment', 'comment-with-quote-char',
-     'renderings-differ-in-indentation', 'renderings-differ-in-literal-style'])
+     'renderings-differ-in-indentation', 'renderings-differ-in-literal-style', 'documented-example'])
 REQUIRED_MONITORS = ['tuple_records_compared', 'type_records_compared', 'key_order_compared',
                      'metamorphic_pairs_compared', 'parses_under_step_guard', 'table_hygiene_checks']
 ASSUMPTIONS = [
@@ -66,7 +66,93 @@ _counter = itertools.count()
 def setup():
     from scinumtools.dip import DIP, Format
     from vt.monitors.tables import Hygiene
+    for name, tree, documented in doc_examples():      # the model must reproduce the documented examples
+        got = [(e['path'], e['value'], e['unit']) for e in M.expected(tree)]
+        if got != documented:
+            raise AssertionError('reference model disagrees with documented example %s: %r' % (name, got))
     return dict(DIP=DIP, Format=Format, hyg=Hygiene(), guard=M.StepGuard(), shard=None)
+
+
+# ---------------------------------------------------------------------------------------------- documented examples
+
+def _S(v):
+    return {'t': 'str', 'v': v}
+
+
+def _I(v):
+    return {'t': 'int', 'v': v, 'plus': False}
+
+
+def _B(v):
+    return {'t': 'bool', 'v': v}
+
+
+def _F(txt):
+    """float literal from its decimal text (mantissa digits and power of ten kept exactly)"""
+    t = txt.lower()
+    mant, _, e = t.partition('e')
+    sign = -1 if mant.startswith('-') else 1
+    mant = mant.lstrip('+-')
+    ip, _, fp = mant.partition('.')
+    return {'t': 'float', 'sign': sign, 'digits': (ip + fp) or '0', 'exp': int(e or 0) - len(fp), 'txt': txt,
+            'form': 'sci' if e else ('dec' if '.' in mant else 'int')}
+
+
+def _A(items):
+    return {'t': 'arr', 'items': items}
+
+
+def _leaf(name, dt, val, unit=None, ch=(), sfx=None):
+    return {'k': 'leaf', 'name': name, 'dt': dt, 'sfx': sfx if sfx is not None else {'int': ['', ''], 'float': ['']}.get(dt, []),
+            'val': val, 'unit': unit, 'ch': list(ch)}
+
+
+def doc_examples():
+    """(name, tree, documented result as [(path, value, unit)]) from docs/source/dip/syntax/nodes.rst, values.rst
+    and tests/dip/test_finalizing.py::test_hierarchy"""
+    grp = lambda name, ch: {'k': 'group', 'name': name, 'ch': list(ch)}
+    ex = []
+    ex.append(('nodes.rst hierarchy', {'items': [
+        _leaf('grandfather', 'str', _S('John'), ch=[
+            _leaf('father', 'str', _S('Peter'), ch=[_leaf('son', 'str', _S('Benjamin')), _leaf('daughter', 'str', _S('Lucia'))]),
+            _leaf('aunt', 'str', _S('Cintia'))])]},
+        [('grandfather', 'John', None), ('grandfather.father', 'Peter', None), ('grandfather.father.son', 'Benjamin', None),
+         ('grandfather.father.daughter', 'Lucia', None), ('grandfather.aunt', 'Cintia', None)]))
+    ex.append(('nodes.rst paths', {'items': [
+        grp('family', [_leaf('father', 'str', _S('Peter'), ch=[_leaf('son', 'str', _S('Benjamin'))]),
+                       _leaf('father.daughter', 'str', _S('Lucia'))]),
+        _leaf('family.aunt.dog', 'str', _S('Lassie'))]},
+        [('family.father', 'Peter', None), ('family.father.son', 'Benjamin', None),
+         ('family.father.daughter', 'Lucia', None), ('family.aunt.dog', 'Lassie', None)]))
+    ex.append(('test_finalizing hierarchy', {'items': [
+        _leaf('general.colonel', 'int', _I(1), ch=[grp('captain', [_leaf('soldier', 'int', _I(2))])])]},
+        [('general.colonel', 1, None), ('general.colonel.captain.soldier', 2, None)]))
+    ex.append(('values.rst arrays', {'items': [
+        _leaf('data1', 'bool', _A([_B(True), _B(False), _B(False), _B(True)])),
+        _leaf('data2', 'int', _A([_I(i) for i in range(7)])),
+        _leaf('data3', 'float', _A([_F('0'), _F('1.34'), _F('1.34e4')])),
+        _leaf('matrix', 'int', _A([_A([_I(0), _I(1), _I(2)]), _A([_I(3), _I(4), _I(5)])])),
+        _leaf('mass', 'float', _A([_A([_F('25'), _F('50')]), _A([_F('34.2'), _F('95.1')]), _A([_F('1e3'), _F('1e4')])]), 'kg')]},
+        [('data1', [True, False, False, True], None), ('data2', [0, 1, 2, 3, 4, 5, 6], None),
+         ('data3', [0.0, 1.34, 13400.0], None), ('matrix', [[0, 1, 2], [3, 4, 5]], None),
+         ('mass', [[25.0, 50.0], [34.2, 95.1], [1000.0, 10000.0]], 'kg')]))
+    col = lambda name, dt, vals, unit=None: {'name': name, 'dt': dt, 'sfx': {'int': ['', ''], 'float': ['']}[dt], 'unit': unit,
+                                             'cell': None, 'vals': vals}
+    ex.append(('values.rst table', {'items': [{'k': 'table', 'name': 'output', 'ch': [], 'cols': [
+        col('snapshot', 'int', [_I(i) for i in range(5)]),
+        col('time', 'float', [_F(x) for x in ('0.234', '1.355', '2.535', '3.255', '4.455')], 's'),
+        col('intensity', 'float', [_F(x) for x in ('2.34', '9.4', '3.4', '2.3', '23.4')], 'W/m2')]}]},
+        [('output.snapshot', [0, 1, 2, 3, 4], None), ('output.time', [0.234, 1.355, 2.535, 3.255, 4.455], 's'),
+         ('output.intensity', [2.34, 9.4, 3.4, 2.3, 23.4], 'W/m2')]))
+    ex.append(('datatypes.rst scalars', {'items': [
+        _leaf('day', 'bool', _B(True)), _leaf('night', 'bool', _B(False)), _leaf('year', 'int', _I(2023)),
+        _leaf('duration', 'float', _F('10')), _leaf('weight', 'float', _F('23.3')), _leaf('distance', 'float', _F('2.3e20')),
+        _leaf('name', 'str', _S('John')), _leaf('city', 'str', _S('New York')), _leaf('country', 'str', _S('United Kingdoms')),
+        _leaf('unsignedLongInteger', 'int', _I(29349850209348495020394849), sfx=['u', '64'])]},
+        [('day', True, None), ('night', False, None), ('year', 2023, None), ('duration', 10.0, None), ('weight', 23.3, None),
+         ('distance', 2.3e20, None), ('name', 'John', None), ('city', 'New York', None), ('country', 'United Kingdoms', None),
+         ('unsignedLongInteger', 29349850209348495020394849, None)]))
+    return ex
 
 
 # ---------------------------------------------------------------------------------------------- generation
@@ -74,6 +160,10 @@ def setup():
 def cases(rng, tier, shard, nshards, ctx):
     ctx['shard'] = shard
     n = NCASES[tier] // nshards
+    if shard == 0:
+        for name, tree, documented in doc_examples():     # the real parser on the documented examples
+            yield dict(tree=tree, r1=1, r2=2, trig={}, plain=True, doc=name)
+            yield dict(tree=tree, r1=rng.randrange(1 << 30), r2=rng.randrange(1 << 30), trig={}, doc=name)
     for _ in range(n):
         yield gen_case(rng)
 
@@ -300,6 +390,8 @@ def run_case(case, ctx):
             devs.append(dev('renderings-of-one-tree-disagree', dict(a=residual(exp, oa, da)[:8], b=residual(exp, ob, db)[:8])))
     elif fa or fb:
         mon['metamorphic_pairs_skipped_no_data'] = 1
+    if case.get('doc'):
+        classes.add('documented-example')
     nontrivial = M.max_depth(tree) >= 2 and len(exp) >= 3
     # one deviation per (mechanism, known) is enough for the report
     seen, uniq = set(), []
